@@ -1,6 +1,6 @@
 SPECIFICATION TSpec
 CONSTANTS Configs = {}
-INVARIANTS WellFormed Retained Limit NoEarlyRoll NewestLast
+INVARIANTS WellFormed NoGaps Retained Limit NoEarlyRoll NewestLast
 PROPERTIES TDropsOnlyOldest TRestartPreserves
 POSTCONDITION Accepted
 CHECK_DEADLOCK FALSE
